@@ -487,6 +487,8 @@ class Interp:
                 return list(enumerate(*args))
             if n == 'sorted' and len(args) == 1 and not kwargs:
                 return sorted(args[0])
+            if n == 'int' and len(args) == 1 and isinstance(args[0], Sym):
+                return args[0]            # an extent is an integer already
             if n in ('int', 'bool') and len(args) == 1 and isinstance(args[0], (int, bool)):
                 return {'int': int, 'bool': bool}[n](args[0])
             if n == 'repr' and len(args) == 1 and isinstance(args[0], (str, int)):
